@@ -30,7 +30,7 @@ func registerRead(ctx *Context, forward Forward, reg RegisterType, sequenceID in
 
 	if ctx.rat {
 		if sequenceID == 0 {
-			if v, exists := ctx.transactionRAT.Read(reg); exists {
+			if v, exists := ctx.transactionRAT.Read(reg); exists && !ctx.isSuperseded(reg, v, sequenceID) {
 				return v.value
 			}
 		} else {
@@ -38,7 +38,7 @@ func registerRead(ctx *Context, forward Forward, reg RegisterType, sequenceID in
 			// value written by an instruction following the current instruction
 			if v, exists := ctx.transactionRAT.Find(reg, func(v transactionUnit) bool {
 				return v.sequenceID <= sequenceID
-			}); exists {
+			}); exists && !ctx.isSuperseded(reg, v, sequenceID) {
 				return v.value
 			}
 		}
